@@ -91,3 +91,63 @@ pub fn catch<R>(f: impl FnOnce() -> R + std::panic::UnwindSafe) -> Result<R, Str
 
 #[allow(dead_code)]
 pub fn assert_exchange<T: ExchangeData>() {}
+
+/// Like [`Script`], but installs a mock clock reading (milliseconds) before handing out
+/// each element, so that the operator downstream reads exactly that time while it
+/// processes the element.
+#[derive(Clone, Debug)]
+pub struct TimedScript<T: Data> {
+    buf: VecDeque<(u64, StreamElement<T>)>,
+}
+
+impl<T: Data> TimedScript<T> {
+    pub fn new(script: Vec<(u64, StreamElement<T>)>) -> Self {
+        Self { buf: script.into() }
+    }
+}
+
+impl<T: Data> Display for TimedScript<T> {
+    fn fmt(&self, f: &mut std::fmt::Formatter<'_>) -> std::fmt::Result {
+        write!(f, "TimedScript")
+    }
+}
+
+impl<T: Data> Operator for TimedScript<T> {
+    type Out = T;
+    fn setup(&mut self, _metadata: &mut ExecutionMetadata) {}
+    fn next(&mut self) -> StreamElement<T> {
+        match self.buf.pop_front() {
+            Some((ms, e)) => {
+                verif::set_mock_clock(Some(std::time::Duration::from_millis(ms)));
+                e
+            }
+            None => StreamElement::Terminate,
+        }
+    }
+    fn structure(&self) -> BlockStructure {
+        BlockStructure::default().add_operator(OperatorStructure::new::<T, _>("TimedScript"))
+    }
+}
+
+impl<T: Data> Source for TimedScript<T> {
+    fn replication(&self) -> Replication {
+        Replication::One
+    }
+}
+
+pub fn run_timed_chain<T, Op, F>(script: Vec<(u64, StreamElement<T>)>, build: F) -> Vec<StreamElement<Op::Out>>
+where
+    T: Data,
+    Op: Operator,
+    F: FnOnce(Stream<TimedScript<T>>) -> Stream<Op>,
+{
+    let env = StreamContext::new(RuntimeConfig::local(1).unwrap());
+    let stream = build(env.stream(TimedScript::new(script)));
+    let id = verif::block_id(&stream);
+    let mut chain = verif::into_chain(stream);
+    let mut net = Net::new(id);
+    chain.setup(&mut net.metadata(BatchMode::fixed(1024)));
+    let out = pull_all(&mut chain);
+    verif::set_mock_clock(None);
+    out
+}
